@@ -161,6 +161,7 @@ func genHpackDec(p *prng, thorough bool, w *bufio.Writer) {
 	genIntDec(p, thorough, w)
 	genStrDec(p, thorough, w)
 	genFieldDec(p, thorough, w)
+	genUpdateBlocks(w)
 	n := 400
 	if thorough {
 		n = 6000
@@ -395,6 +396,77 @@ func genFieldDec(p *prng, thorough bool, w *bufio.Writer) {
 		field(c, 1, 0, 0, gRepr{kind: kSizeUpdate, idx: uint64(lim) + 1}.ser(nil))
 		field(c, 1, 0, 0, gRepr{kind: kIncremental, idx: 0, name: []byte("cc"), value: []byte("dd")}.ser(nil))
 		field(c, 1, 1, 0, []byte{0xbe})
+	}
+}
+
+// genUpdateBlocks: header blocks that open with dynamic table size updates (or consist of them), after a
+// block that filled the table: delivered whole, cut in two at every octet, cut in three at every pair of
+// octets up to the end of the first field, with an empty frame at every cut of the opening, truncated; then
+// a block that needs the table the first one left. The same for every seed: these are the shapes of the
+// repaired findings F04 (cut before the first field ends) and F05 (a frame of size updates only).
+func genUpdateBlocks(w *bufio.Writer) {
+	lit := gRepr{kind: kIncremental, idx: 0, name: []byte("ab"), value: []byte("cde")}
+	hlit := gRepr{kind: kWithout, idx: 0, name: []byte("www"), value: []byte("example"), nh: true, vh: true}
+	prefixes := [][]uint64{{0}, {4096}, {31}, {0, 4096}, {100, 32}, {4096, 0, 64}}
+	tails := [][]gRepr{
+		{lit, {kind: kIndexed, idx: 62}},
+		{{kind: kIndexed, idx: 2}, lit},
+		{hlit},
+		{{kind: kNever, idx: 62, value: []byte("v")}},
+		{},
+	}
+	n := 0
+	deliver := func(blk []byte, cuts []int, empty bool) {
+		c := fmt.Sprintf("hu%d", n)
+		n++
+		fmt.Fprintf(w, "hpack.dec %s new\n", c)
+		fmt.Fprintf(w, "hpack.dec %s frame cont=0 eh=1 %s\n", c, hexOrDash(gRepr{kind: kIncremental, idx: 0, name: []byte("p"), value: []byte("q")}.ser(nil)))
+		start, cont := 0, 0
+		for _, k := range append(append([]int(nil), cuts...), len(blk)) {
+			eh := 0
+			if k == len(blk) {
+				eh = 1
+			}
+			fmt.Fprintf(w, "hpack.dec %s frame cont=%d eh=%d %s\n", c, cont, eh, hexOrDash(blk[start:k]))
+			if empty && eh == 0 {
+				fmt.Fprintf(w, "hpack.dec %s frame cont=1 eh=0 -\n", c)
+			}
+			start, cont = k, 1
+		}
+		fmt.Fprintf(w, "hpack.dec %s frame cont=0 eh=1 be\n", c)
+	}
+	for _, pre := range prefixes {
+		for _, tail := range tails {
+			var blk []byte
+			for _, u := range pre {
+				blk = gRepr{kind: kSizeUpdate, idx: u}.ser(blk)
+			}
+			opening := len(blk)
+			first := opening
+			for i, g := range tail {
+				blk = g.ser(blk)
+				if i == 0 {
+					first = len(blk)
+				}
+			}
+			deliver(blk, nil, false)
+			for k := 1; k < len(blk); k++ {
+				deliver(blk, []int{k}, false)
+				if k <= opening {
+					deliver(blk, []int{k}, true)
+				}
+			}
+			for k1 := 1; k1 < len(blk) && k1 <= first; k1++ {
+				for k2 := k1 + 1; k2 < len(blk) && k2 <= first+1; k2++ {
+					deliver(blk, []int{k1, k2}, false)
+				}
+			}
+			// the block ends one octet early
+			deliver(blk[:len(blk)-1], nil, false)
+			if opening < len(blk)-1 {
+				deliver(blk[:len(blk)-1], []int{opening}, false)
+			}
+		}
 	}
 }
 
